@@ -6,6 +6,7 @@ use crate::engines::e1_chain::*;
 use crate::model::chain::ApiKind;
 use crate::engines::e1_gen::Profile;
 use crate::engines::e1_run::*;
+use crate::puppet::RMode;
 use crate::rng::{derive, Rng};
 use serde_json::{json, Value};
 
@@ -141,6 +142,39 @@ pub fn run(ctx: &Ctx) -> Report {
                 }
             }
         }
+        if prop == "C02" && w < 4 {
+            // sub-messages to every other kind of module (recording modules that write before they fail): a caught
+            // failure leaves none of the module's writes, earlier siblings' effects stay, an uncaught one fails it all
+            use crate::engines::e5_routing::{exec_cell, Ent, Kind, Origin, RWorld, MODULES};
+            let mut world = RWorld::new();
+            let mut n = 0u64;
+            for cfg in (w as u32..64).step_by(4) {
+                {
+                    let mut f = world.hub.failing.borrow_mut();
+                    for (i, m) in MODULES.iter().enumerate() {
+                        f.insert(m, cfg >> i & 1 == 1);
+                    }
+                }
+                for k in [Kind::Staking, Kind::Distribution, Kind::Custom, Kind::Ibc, Kind::Gov, Kind::Stargate, Kind::Any, Kind::BankEmpty] {
+                    for o in [Origin::Puppet(1), Origin::Puppet(2), Origin::Lifted(1)] {
+                        for mode in [RMode::Error, RMode::Always, RMode::Success, RMode::Never] {
+                            for sib in [false, true] {
+                                n += 1;
+                                rep.bump("e1/module_submsg_cells");
+                                if let Some((sig, detail)) = exec_cell(&mut world, k, o, Ent::Execute, mode, sib, n + cfg as u64 * 10_000, &mut rep) {
+                                    if ["caught-module-failure-left-its-writes", "earlier-sibling-effect-lost", "failed-transaction-left-state-changes", "failing-module-error-swallowed", "failing-module-did-not-abort-transaction", "accepted-module-effect-lost", "module-failure-not-reported-to-reply"].contains(&sig.as_str()) {
+                                        rep.violate("C02", sig, detail.clone(), json!({"engine": "e5_routing", "cell": detail, "configuration": cfg}));
+                                    }
+                                    let failing = world.hub.failing.borrow().clone();
+                                    world = RWorld::new();
+                                    *world.hub.failing.borrow_mut() = failing;
+                                }
+                            }
+                        }
+                    }
+                }
+            }
+        }
         if prop == "C01" || prop == "C10" {
             // trees with staking / distribution / ibc / gov messages: model-free invariants only
             let n = ctx.scale(240, 16 * 3000) / ctx.workers as u64;
@@ -179,6 +213,10 @@ pub fn run(ctx: &Ctx) -> Report {
             v.push("e1/submsg/Always/child-failed/reply-failed/depth1".into());
             v.push("e1/submsg/Success/child-ok/reply-failed/depth1".into());
             v.push("e1/rolled_back_changes_checked".into());
+            if prop == "C02" {
+                v.push("e1/module_submsg_cells".into());
+                v.push("c17/caught_failure_rollback_checks".into());
+            }
             v
         }
         "C04" => vec!["e1/data/data-overridden-by-reply".into(), "e1/data/reply-without-data-keeps-previous".into(), "e1/data/submsg-data-dropped-without-reply".into(), "e1/data/execute-no-data".into(), "e1/data/instantiate-no-data".into(), "e1/responses/events_compared".into(), "e1/entry/Migrate".into(), "e1/entry/Sudo".into()],
